@@ -1753,3 +1753,59 @@ def close_race_connect(reps=6):
                 b.adv(1).add("listPeers")
                 out.append(b.tag("stop", "closerace", "fuzz").build())
     return out
+
+
+def pm_gates():
+    """The peer manager itself is held (inside the application's Logger, which corebgp calls from the PM
+    goroutine at every transition / error) at chosen moments, while timers fire, dials complete and
+    connections arrive; then released.  Gate names: dis-out / dis-in (disableFSM about to stop an FSM),
+    apv-out / apv-in (a transition was just handed to an FSM), err-out / err-in (an error was received)."""
+    out = []
+
+    def rel(b, name, k):
+        return b.add("release", peer="p1", call=name, w=k)
+
+    # (1) PM held while it is about to disable the outbound FSM (inbound reaches Established); meanwhile the
+    #     outbound FSM's idle-hold timer fires, it dials, the dial succeeds; then the PM goes on
+    for what in ("dial-ok", "dial-refuse", "nothing"):
+        b = Sb("pmgate-disout-%s" % what, [peer(gates=["dis-out#1"], idleHold=sec(5), connRetry=sec(30))])
+        b.start()
+        b.dial_refuse()                       # outbound FSM back in Idle, idle-hold timer running (5 s)
+        ci = b.connect()
+        b.open(ci).ka(ci)                     # Established requested: PM held before stopping the outbound FSM
+        b.adv(5)                              # idle-hold expires: dial starts, transition request waits for the PM
+        if what == "dial-ok":
+            co = b.dial_ok()
+        elif what == "dial-refuse":
+            b.dial_refuse()
+        rel(b, "dis-out", 1)
+        b.upd(ci).adv(1)
+        out.append(b.tag("stop", "pmgate", "collision").build())
+    # (2) PM held right after approving OpenConfirm of one connection; the other connection's OPEN and KEEPALIVE arrive
+    for lid in ("10.0.0.1", "10.0.0.9"):
+        for first in DIRS:
+            g = "apv-%s#%d" % (first, 4 if first == "out" else 3)     # the approval of OpenConfirm
+            b = Sb("pmgate-apv-%s-%s" % (lid, first), [peer(gates=[g])], routerID=lid)
+            b.start()
+            co, ci = b.dial_ok(), b.connect()
+            cs = {"out": co, "in": ci}
+            o = "in" if first == "out" else "out"
+            b.open(cs[first])
+            b.open(cs[o]).ka(cs[first]).ka(cs[o])
+            rel(b, g.split("#")[0], int(g.split("#")[1]))
+            b.adv(1)
+            out.append(b.tag("collision", "pmgate").build())
+    # (3) PM held when an error arrives; the other connection progresses, the application stops the peer
+    for how in ("none", "delete"):
+        for code in (6, 3):
+            b = Sb("pmgate-err-%s-%d" % (how, code), [peer(gates=["err-in#1"])])
+            b.start()
+            co, ci = b.dial_ok(), b.connect()
+            b.open(ci).notif(ci, code, 0)             # error reported on the inbound connection: PM held
+            b.open(co).ka(co)
+            subs = ([step("deletePeer", peer="p1"), step("yield")] if how == "delete" else []) + \
+                   [step("release", peer="p1", call="err-in", w=1)]
+            b.steps.append(multi(*subs))
+            b.adv(1).adv(61)
+            out.append(b.tag("damp" if code != 6 else "nodamp", "pmgate", "stop").build())
+    return out
